@@ -515,33 +515,44 @@ func (*Ufs) Read(req *SrvReq) {
 			}
 		}
 
+		off := int(tc.Offset)
 		switch {
-		case tc.Offset > uint64(len(fid.dirents)):
+		case tc.Offset >= uint64(len(fid.dirents)):
+			// at or past the end of the listing
+			off = len(fid.dirents)
 			count = 0
-		case len(fid.dirents[tc.Offset:]) > int(tc.Count):
-			count = int(tc.Count)
+		case *Akaros:
+			count = len(fid.dirents) - off
+			if count > int(tc.Count) {
+				count = int(tc.Count)
+			}
 		default:
-			count = len(fid.dirents[tc.Offset:])
-		}
-
-		if !*Akaros {
-			nextend := sort.SearchInts(fid.direntends, int(tc.Offset)+count)
-			if nextend < len(fid.direntends) {
-				if fid.direntends[nextend] > int(tc.Offset)+count {
-					if nextend > 0 {
-						count = fid.direntends[nextend-1] - int(tc.Offset)
-					} else {
-						count = 0
-					}
+			// the offset must be 0 or the place where an earlier read
+			// ended, i.e. the end of an entry
+			if off != 0 {
+				i := sort.SearchInts(fid.direntends, off)
+				if i == len(fid.direntends) || fid.direntends[i] != off {
+					req.RespondError(Ebadoffset)
+					return
 				}
 			}
-			if count == 0 && int(tc.Offset) < len(fid.dirents) && len(fid.dirents) > 0 {
+
+			count = len(fid.dirents) - off
+			if count > int(tc.Count) {
+				count = int(tc.Count)
+			}
+
+			// only whole entries: the last entry that ends within count
+			i := sort.SearchInts(fid.direntends, off+count+1)
+			if i > 0 && fid.direntends[i-1] > off {
+				count = fid.direntends[i-1] - off
+			} else {
 				req.RespondError(&Error{"too small read size for dir entry", EINVAL})
 				return
 			}
 		}
 
-		copy(rc.Data, fid.dirents[tc.Offset:int(tc.Offset)+count])
+		copy(rc.Data, fid.dirents[off:off+count])
 
 	} else {
 		count, e = fid.file.ReadAt(rc.Data, int64(tc.Offset))
